@@ -104,6 +104,9 @@ func (f *FuncCFG) isExitBlock(b *cfg.Block) bool {
 	if len(b.Succs) != 0 || !b.Live {
 		return false
 	}
+	if b.Kind == cfg.KindSelectAfterCase && len(b.Nodes) == 0 {
+		return false // select without default: "no case ready" blocks, it is not an exit
+	}
 	if len(b.Nodes) > 0 {
 		if es, ok := b.Nodes[len(b.Nodes)-1].(*ast.ExprStmt); ok {
 			if c, ok := es.X.(*ast.CallExpr); ok && !mayReturn(f.Info)(c) {
